@@ -18,6 +18,7 @@ CONSTANTS MaxPool,    \* edit model: pool slots
           MaxNodes,   \* lookup model: nodes per tree (root included)
           NameIds,    \* lookup model: names of non-root nodes, 0 = unnamed object, k = <<64+k, '_', '_', '_'>>
           Bug,        \* "" or the name of a design mutant
+          AllowDetached, \* lookup model: non-root nodes may also be tops of detached subtrees
           Emit        \* write the graph / the cases for leg G
 
 VARIABLES pool, freeHead, nops, ev, s, mismatch
@@ -47,7 +48,7 @@ Proj(pl, fh) ==
 
 Ev(k, p, c, a, o, r, named) ==
   [k |-> k, p |-> p, c |-> c, a |-> a, o |-> o, r |-> r, n |-> Len(pool'), named |-> 0, nm |-> <<>>,
-   s |-> 0, x |-> <<>>, res |-> "ok", st |-> Proj(pool', freeHead'), hn |-> named]
+   s |-> 0, x |-> <<>>, res |-> "ok", st |-> Proj(pool', freeHead'), hn |-> named, pa |-> 0]
 Judge == LET m == Mon(s, ev') IN s' = m.s /\ mismatch' = FirstFail(nops', m.cs)
 
 --------------------------------------------------------------------------
@@ -99,11 +100,21 @@ DetachOp(p, c) ==
   /\ ev' = Ev("det", p, c, 0, 0, 0, 0)
 
 FreeOp(o) ==
-  /\ o \in LiveP /\ pool[o].first = 0 /\ pool[o].last = 0
+  /\ o \in LiveP /\ pool[o].first = 0 /\ pool[o].last = 0 /\ Bug # "FreeNonLeafProceeds"
   /\ LET pl == IF pool[o].par # 0 /\ Bug # "FreeNoDetach" THEN DoDetach(pool, pool[o].par, o) ELSE pool IN
      pool' = [pl EXCEPT ![o].fr = 1, ![o].next = freeHead]
   /\ freeHead' = o
   /\ ev' = Ev("free", 0, 0, 0, o, 0, 0)
+
+\* free of an object that still has children: the real code unlinks it from its parent and then refuses (panics)
+FreeNonLeafOp(o) ==
+  /\ o \in LiveP /\ pool[o].first # 0
+  /\ LET pl == IF pool[o].par # 0 THEN DoDetach(pool, pool[o].par, o) ELSE pool IN
+     IF Bug = "FreeNonLeafProceeds"
+     THEN /\ pool' = [pl EXCEPT ![o].fr = 1, ![o].next = freeHead] /\ freeHead' = o
+          /\ ev' = Ev("free", 0, 0, 0, o, 0, 0)
+     ELSE /\ pool' = pl /\ UNCHANGED freeHead
+          /\ ev' = [Ev("free", 0, 0, 0, o, 0, 0) EXCEPT !.res = "panic"]
 
 Init == pool = <<>> /\ freeHead = 0 /\ nops = 0 /\ ev = [k |-> "init"] /\ s = S0 /\ mismatch = <<>>
 
@@ -112,7 +123,7 @@ Next ==
   /\ \/ \E named \in {0, 1} : New(named)
      \/ \E p \in LiveP, c \in LiveP : AppendOp(p, c) \/ DetachOp(p, c)
      \/ \E p \in LiveP, c \in LiveP, a \in LiveP : AppendAfterOp(p, c, a)
-     \/ \E o \in LiveP : FreeOp(o)
+     \/ \E o \in LiveP : FreeOp(o) \/ FreeNonLeafOp(o)
   /\ Judge
 
 \* ---- what TLC checks on the edit model
@@ -168,7 +179,8 @@ FindImpl(pl, sc, x) ==
 \* ---- the small scope of lookups: every tree of up to MaxNodes nodes, every expression of Exprs from every scope
 NameOf(id) == IF id = 0 THEN Zero4 ELSE <<64 + id, 95, 95, 95>>
 RootName == <<92, 0, 0, 0>>
-ParVecs(N) == {f \in [2..N -> 1..(N - 1)] : \A i \in 2..N : f[i] < i}
+\* pv[i] = parent of node i (a lower slot); 0 = node i is the top of a detached subtree
+ParVecs(N) == {f \in [2..N -> (IF AllowDetached THEN 0 ELSE 1)..(N - 1)] : \A i \in 2..N : f[i] < i}
 TreePool(N, pv, ids) ==
   LET K(p) == {i \in 2..N : pv[i] = p}
       Min(S) == IF S = {} THEN 0 ELSE CHOOSE x \in S : \A y \in S : x <= y
@@ -176,10 +188,9 @@ TreePool(N, pv, ids) ==
   [i \in 1..N |->
      [fr |-> 0, nm |-> IF i = 1 THEN RootName ELSE NameOf(ids[i]),
       par |-> IF i = 1 THEN 0 ELSE pv[i],
-      prev |-> IF i = 1 THEN 0 ELSE Max({j \in K(pv[i]) : j < i}),
-      next |-> IF i = 1 THEN 0 ELSE Min({j \in K(pv[i]) : j > i}),
+      prev |-> IF i = 1 \/ pv[i] = 0 THEN 0 ELSE Max({j \in K(pv[i]) : j < i}),
+      next |-> IF i = 1 \/ pv[i] = 0 THEN 0 ELSE Min({j \in K(pv[i]) : j > i}),
       first |-> Min(K(i)), last |-> Max(K(i))]]
-SiblingsUnique(N, pv, ids) == \A i, j \in 2..N : (i < j /\ pv[i] = pv[j] /\ ids[i] # 0) => ids[i] # ids[j]
 
 A4 == NameOf(1)
 B4 == NameOf(2)
@@ -197,13 +208,13 @@ Bodies ==
         <<47, 2>> \o A4 \o <<66, 95, 95>>, <<47, 65, 95, 95, 95>>}
   \cup {<<46>>, <<47>>, <<47, 0>>, <<47, 1>>, <<47, 2>>, <<47, 65>>}                                         \* prefix byte(s), no name: not-found
   \cup {<<47, 2>> \o A4, <<46>> \o A4, <<46>> \o B4, <<47, 2>> \o B4, A4 \o <<46>> \o B4, <<0>>, A4 \o <<0>>,   \* malformed
-        <<97, 95, 95, 95>>, <<49, 95, 95, 95>>, A4 \o <<92>>, <<47, 1>> \o A4 \o B4}
+        <<97, 95, 95, 95>>, <<49, 95, 95, 95>>, A4 \o <<92>>, <<47, 1>> \o A4 \o B4,
+        <<94>> \o A4, <<92>> \o A4, <<92>>, <<94>>}                       \* a prefix after a prefix ('\^', '^\', '\\')
 Exprs == {p \o b : p \in Prefixes, b \in Bodies}
 
 InitFind ==
   /\ \E N \in 1..MaxNodes : \E pv \in ParVecs(N) : \E ids \in [2..N -> NameIds] :
-        /\ SiblingsUnique(N, pv, ids)
-        /\ pool = TreePool(N, pv, ids)
+        pool = TreePool(N, pv, ids)
   /\ freeHead = 0 /\ nops = 0 /\ ev = [k |-> "tree"]
   /\ LET st == Proj(pool, 0)
          s0 == [n |-> st.n, fr |-> {}, par |-> st.par, kids |-> st.kids, nm |-> st.nm, ck |-> TRUE, T |-> TreeOf(st)] IN
@@ -211,7 +222,7 @@ InitFind ==
 
 NextFind ==
   /\ nops = 0 /\ nops' = 1 /\ UNCHANGED <<pool, freeHead>>
-  /\ \E sc \in 1..Len(pool), x \in Exprs :
+  /\ \E sc \in 0..Len(pool), x \in Exprs :
         ev' = [k |-> "find", s |-> sc, x |-> x, r |-> FindImpl(pool, sc, x), res |-> "ok"]
   /\ Judge
 
